@@ -551,6 +551,24 @@ func replayRego(dir string) int {
 		fmt.Println(err)
 		return 2
 	}
+	if in.Kind == "rego-compile" {
+		gens, gerr := drv.Generate([]string{string(prof)})
+		if gerr != nil {
+			fmt.Println(gerr)
+			return 2
+		}
+		msg := gens[0].Error
+		if msg == "" {
+			msg = gosym.RegoCompileError(gens[0].Code)
+		}
+		fmt.Printf("program:  %s\nrecorded: %s\nnow:      %s\n", in.Program, in.Detail, msg)
+		if msg != "" {
+			fmt.Println("REPRODUCED")
+			return 1
+		}
+		fmt.Println("NOT REPRODUCED")
+		return 0
+	}
 	outs, err := drv.Validate([]regosym.ValIn{{Profile: string(prof), Data: string(data)}})
 	if err != nil || outs[0].Error != "" {
 		fmt.Println("validation failed:", err, outs[0].Error)
